@@ -12,6 +12,8 @@
 import SCoda.Gen.ElemFns
 import SCoda.Props.WrapTie
 import SCoda.Props.C11b
+import SCoda.Model.BarCh
+import SCoda.Model.BarOps
 namespace SCoda.ElemTie
 open SCoda SCoda.WrapTie
 
@@ -30,83 +32,207 @@ theorem pyIntOf_barCap (n ppqn d : Int) (hn : 0 ≤ n) (hp : 0 ≤ ppqn) (hd : 0
   unfold barCapacityPy at h
   simp [pyIntOf, h]
 
+/-- **`Bar(sequence, numerator, denominator, key, default_channel)` as translated from bar.py is `mkBarCh` on the
+    relative view of the sequence, for EVERY `default_channel`** (audit round 3, R7): same exception or same bar, the
+    leading time-signature event on channel `chanOf default_channel` (`None` ↦ 0, `Message.__init__`); the sequence is
+    left with exactly the bar's relative view, relative view fresh, absolute view stale and untouched; the bar
+    remembers `default_channel` (repair of D37). -/
+theorem barInit_eq_ch (e : Env) (s : Seq) (n d key c : Int) (hn : 0 ≤ n) (hd : 0 < d) (hp : 0 ≤ e.ppqn) :
+    Gen.Elem.barInit e s n d key c =
+      (do let p ← s.readRel
+          let b ← mkBarCh e.ppqn p.2 n d key (chanOf c)
+          pure { sequence := { abs := s.abs, rel := b.seq, absStale := true, relStale := false }, num := n, den := d, key := key,
+                 defaultChannel := c }) := by
+  have hc := pyIntOf_barCap n e.ppqn d hn hp hd
+  obtain ⟨a, r, sa, sr⟩ := s
+  cases sa <;> cases sr <;>
+  simp [Gen.Elem.barInit, normalise_eq, messagesRel_eq, pad_eq, overwriteRel_eq, addRel_eq, unit, Seq.normaliseSeq, Seq.onRel, Seq.readRel,
+    Seq.editRel, Seq.padSeq, Seq.overwriteRel, Seq.addRelMsg, Seq.insertAt, totalWait_eq_sum, mkBarCh, chanOf, hc] <;>
+  (repeat' split) <;> simp_all [Msg.mkTimeSig]
+
 /-- **`Bar(sequence, numerator, denominator, key)` as translated from bar.py is `mkBar` on the relative view
     of the sequence**: same exception or same bar; the sequence is left with exactly the bar's relative
-    view, relative view fresh, absolute view stale and untouched. -/
+    view, relative view fresh, absolute view stale and untouched.  (The instance `default_channel = 0` of
+    `barInit_eq_ch`; the record on the right has `defaultChannel := 0`, the field's default.) -/
 theorem barInit_eq (e : Env) (s : Seq) (n d key : Int) (hn : 0 ≤ n) (hd : 0 < d) (hp : 0 ≤ e.ppqn) :
     Gen.Elem.barInit e s n d key 0 =
       (do let p ← s.readRel
           let b ← mkBar e.ppqn p.2 n d key
           pure { sequence := { abs := s.abs, rel := b.seq, absStale := true, relStale := false }, num := n, den := d, key := key }) := by
-  have hc := pyIntOf_barCap n e.ppqn d hn hp hd
-  obtain ⟨a, r, sa, sr⟩ := s
-  cases sa <;> cases sr <;>
-  simp [Gen.Elem.barInit, normalise_eq, messagesRel_eq, pad_eq, overwriteRel_eq, addRel_eq, unit, Seq.normaliseSeq, Seq.onRel, Seq.readRel,
-    Seq.editRel, Seq.padSeq, Seq.overwriteRel, Seq.addRelMsg, Seq.insertAt, totalWait_eq_sum, mkBar, hc] <;>
-  (repeat' split) <;> simp_all [Msg.mkTimeSig]
+  rw [barInit_eq_ch e s n d key 0 hn hd hp]
+  rfl
 
-/-- forgetting the wrapper state: the translated constructor computes the model's bar -/
-theorem barInit_toBar (e : Env) (s : Seq) (n d key : Int) (hn : 0 ≤ n) (hd : 0 < d) (hp : 0 ≤ e.ppqn) :
-    GBar.toBar <$> Gen.Elem.barInit e s n d key 0 = (do let p ← s.readRel; mkBar e.ppqn p.2 n d key) := by
-  rw [barInit_eq e s n d key hn hd hp]
+/-- what `mkBarCh` stores in the scalar fields -/
+theorem mkBarCh_fields {ppqn : Int} {rel : List Msg} {n d key ch : Int} {b : Bar} (h : mkBarCh ppqn rel n d key ch = .ok b) :
+    b.num = n ∧ b.den = d ∧ b.key = key ∧ b.seq.head? = some (Msg.mkTimeSig ch n d pyNone) := by
+  unfold mkBarCh at h
+  simp only [bind, Except.bind] at h
+  repeat' split at h
+  all_goals first | (injection h with h; subst h; exact ⟨rfl, rfl, rfl, rfl⟩) | cases h
+
+/-- forgetting the wrapper state: the translated constructor computes the model's bar, for every `default_channel` -/
+theorem barInit_toBar_ch (e : Env) (s : Seq) (n d key c : Int) (hn : 0 ≤ n) (hd : 0 < d) (hp : 0 ≤ e.ppqn) :
+    GBar.toBar <$> Gen.Elem.barInit e s n d key c = (do let p ← s.readRel; mkBarCh e.ppqn p.2 n d key (chanOf c)) := by
+  rw [barInit_eq_ch e s n d key c hn hd hp]
   cases s.readRel with
   | error x => rfl
   | ok p =>
     simp only [ok_bind]
-    cases h : mkBar e.ppqn p.2 n d key with
+    cases h : mkBarCh e.ppqn p.2 n d key (chanOf c) with
     | error x => rfl
     | ok b =>
-      have hb : b.num = n ∧ b.den = d ∧ b.key = key := by
-        unfold mkBar at h
-        simp only [bind, Except.bind] at h
-        repeat' split at h
-        all_goals first | (injection h with h; subst h; exact ⟨rfl, rfl, rfl⟩) | cases h
-      obtain ⟨h1, h2, h3⟩ := hb
+      obtain ⟨h1, h2, h3, _⟩ := mkBarCh_fields h
       subst h1 h2 h3
       rfl
+
+/-- forgetting the wrapper state: the translated constructor computes the model's bar -/
+theorem barInit_toBar (e : Env) (s : Seq) (n d key : Int) (hn : 0 ≤ n) (hd : 0 < d) (hp : 0 ≤ e.ppqn) :
+    GBar.toBar <$> Gen.Elem.barInit e s n d key 0 = (do let p ← s.readRel; mkBar e.ppqn p.2 n d key) :=
+  barInit_toBar_ch e s n d key 0 hn hd hp
+
+/-- **what every successfully constructed bar looks like — no hypothesis on the signature, PPQN or the wrapper state**:
+    relative view fresh, absolute view stale, the arguments stored — `default_channel` among them (repair of D37) — and
+    the leading event of the relative view is the bar's time signature on channel `chanOf default_channel` -/
+theorem barInit_shape (e : Env) (s : Seq) (n d key c : Int) (g : GBar)
+    (h : Gen.Elem.barInit e s n d key c = .ok g) :
+    g.sequence.absStale = true ∧ g.sequence.relStale = false ∧ g.num = n ∧ g.den = d ∧ g.key = key ∧ g.defaultChannel = c ∧
+      g.sequence.rel.head? = some (Msg.mkTimeSig (chanOf c) n d pyNone) := by
+  obtain ⟨a, r, sa, sr⟩ := s
+  generalize hcap : pyIntOf (((PyNum.int n).mul (PyNum.int e.ppqn)).truediv ((PyNum.int d).truediv (PyNum.int 4))) = cap at *
+  cases sa <;> cases sr <;>
+  simp [Gen.Elem.barInit, normalise_eq, messagesRel_eq, pad_eq, overwriteRel_eq, addRel_eq, unit, Seq.normaliseSeq, Seq.onRel, Seq.readRel,
+    Seq.editRel, Seq.padSeq, Seq.overwriteRel, Seq.addRelMsg, Seq.insertAt, hcap] at h <;>
+  (repeat' split at h) <;> simp_all [Msg.mkTimeSig, chanOf] <;> (subst h; simp)
 
 /-- a constructed bar: relative view fresh, absolute view stale -/
 theorem barInit_flags (e : Env) (s : Seq) (n d key : Int) (hn : 0 ≤ n) (hd : 0 < d) (hp : 0 ≤ e.ppqn) (g : GBar)
     (h : Gen.Elem.barInit e s n d key 0 = .ok g) :
     g.sequence.absStale = true ∧ g.sequence.relStale = false ∧ g.num = n ∧ g.den = d ∧ g.key = key := by
-  rw [barInit_eq e s n d key hn hd hp] at h
-  cases hr : s.readRel with
-  | error x => rw [hr] at h; cases h
-  | ok p =>
-    rw [hr] at h
-    simp only [ok_bind] at h
-    cases hm : mkBar e.ppqn p.2 n d key with
-    | error x => rw [hm] at h; cases h
-    | ok b =>
-      rw [hm] at h
-      simp only [ok_bind, pure_eq] at h
-      injection h with h
-      subst h
-      exact ⟨rfl, rfl, rfl, rfl, rfl⟩
+  obtain ⟨h1, h2, h3, h4, h5, _⟩ := barInit_shape e s n d key 0 g h
+  exact ⟨h1, h2, h3, h4, h5⟩
 
-/-- **`Bar.copy()` as translated is the model's `Bar.copy`** for a bar whose sequence can be read
-    (at least one fresh view): a new bar constructed from the relative view. -/
-theorem barCopy_toBar (e : Env) (g : GBar) (hn : 0 ≤ g.num) (hd : 0 < g.den) (hp : 0 ≤ e.ppqn)
+/-- **`Bar.copy()` as translated (after the repair of D37) is the model's copy on the bar's own channel**, for a bar
+    whose sequence can be read (at least one fresh view): a new bar constructed from the relative view, with the
+    `default_channel` the bar remembers. -/
+theorem barCopy_toBar_ch (e : Env) (g : GBar) (hn : 0 ≤ g.num) (hd : 0 < g.den) (hp : 0 ≤ e.ppqn)
     (hr : ¬(g.sequence.absStale = true ∧ g.sequence.relStale = true)) :
     (fun p => p.2.toBar) <$> Gen.Elem.barCopy e g =
-      (do let p ← g.sequence.readRel; mkBar e.ppqn p.2 g.num g.den g.key) := by
-  have hb := barInit_toBar e g.sequence.copy g.num g.den g.key hn hd hp
-  obtain ⟨⟨a, r, sa, sr⟩, n, d, k⟩ := g
+      (do let p ← g.sequence.readRel; mkBarCh e.ppqn p.2 g.num g.den g.key (chanOf g.defaultChannel)) := by
+  have hb := barInit_toBar_ch e g.sequence.copy g.num g.den g.key g.defaultChannel hn hd hp
+  obtain ⟨⟨a, r, sa, sr⟩, n, d, k, c⟩ := g
   cases sa <;> cases sr <;> simp at hr <;>
   (simp only [Gen.Elem.barCopy, copy_eq, ok_bind]
-   cases hi : Gen.Elem.barInit e _ n d k 0 with
+   cases hi : Gen.Elem.barInit e _ n d k c with
    | error x => rw [hi] at hb; exact hb
-   | ok c => rw [hi] at hb; exact hb)
+   | ok c' => rw [hi] at hb; exact hb)
 
-/-- a bar in the state its constructor leaves it in copies to `Bar.copy` of its model -/
-theorem barCopy_constructed (e : Env) (g : GBar) (hn : 0 ≤ g.num) (hd : 0 < g.den) (hp : 0 ≤ e.ppqn)
+/-- **`Bar.copy()` as translated is the model's `Bar.copy`** for a bar whose sequence can be read
+    (at least one fresh view) and whose `default_channel` is 0 or `None` (`hc`: the hand model `mkBar` puts the leading
+    event on channel 0; since the repair of D37 the copy keeps the bar's channel — `barCopy_toBar_ch` is the statement
+    for every channel): a new bar constructed from the relative view. -/
+theorem barCopy_toBar (e : Env) (g : GBar) (hn : 0 ≤ g.num) (hd : 0 < g.den) (hp : 0 ≤ e.ppqn)
+    (hr : ¬(g.sequence.absStale = true ∧ g.sequence.relStale = true)) (hc : chanOf g.defaultChannel = 0) :
+    (fun p => p.2.toBar) <$> Gen.Elem.barCopy e g =
+      (do let p ← g.sequence.readRel; mkBar e.ppqn p.2 g.num g.den g.key) := by
+  rw [barCopy_toBar_ch e g hn hd hp hr, hc]
+  rfl
+
+/-- a bar in the state its constructor leaves it in copies to `Bar.copyCh` of its model, on the channel it remembers -/
+theorem barCopy_constructed_ch (e : Env) (g : GBar) (hn : 0 ≤ g.num) (hd : 0 < g.den) (hp : 0 ≤ e.ppqn)
     (ha : g.sequence.absStale = true) (hr : g.sequence.relStale = false) :
-    (fun p => p.2.toBar) <$> Gen.Elem.barCopy e g = Bar.copy e.ppqn g.toBar := by
-  rw [barCopy_toBar e g hn hd hp (by simp [ha, hr])]
-  obtain ⟨⟨a, r, sa, sr⟩, n, d, k⟩ := g
+    (fun p => p.2.toBar) <$> Gen.Elem.barCopy e g = Bar.copyCh e.ppqn g.toBar (chanOf g.defaultChannel) := by
+  rw [barCopy_toBar_ch e g hn hd hp (by simp [ha, hr])]
+  obtain ⟨⟨a, r, sa, sr⟩, n, d, k, c⟩ := g
   simp only at ha hr
   subst ha hr
   rfl
+
+/-- a bar in the state its constructor leaves it in copies to `Bar.copy` of its model (`default_channel` 0 or `None`,
+    see `barCopy_toBar`; every channel: `barCopy_constructed_ch`) -/
+theorem barCopy_constructed (e : Env) (g : GBar) (hn : 0 ≤ g.num) (hd : 0 < g.den) (hp : 0 ≤ e.ppqn)
+    (ha : g.sequence.absStale = true) (hr : g.sequence.relStale = false) (hc : chanOf g.defaultChannel = 0) :
+    (fun p => p.2.toBar) <$> Gen.Elem.barCopy e g = Bar.copy e.ppqn g.toBar := by
+  rw [barCopy_constructed_ch e g hn hd hp ha hr, hc]
+  rfl
+
+/-- **the statement whose failure was D37**: whenever `Bar.copy()` (as translated) of a bar succeeds, the copy carries
+    the bar's `default_channel`, numerator, denominator and key, it is in the constructed state, and the leading event
+    of its relative view is the time signature on channel `chanOf default_channel` (`None` ↦ 0) — for every bar record,
+    every wrapper state of its sequence, every signature and PPQN (no hypothesis). -/
+theorem barCopy_default_channel (e : Env) (g : GBar) (p : GBar × GBar)
+    (h : Gen.Elem.barCopy e g = .ok p) :
+    p.2.defaultChannel = g.defaultChannel ∧ p.2.num = g.num ∧ p.2.den = g.den ∧ p.2.key = g.key ∧
+      p.2.sequence.rel.head? = some (Msg.mkTimeSig (chanOf g.defaultChannel) g.num g.den pyNone) ∧
+      p.2.sequence.absStale = true ∧ p.2.sequence.relStale = false := by
+  simp only [Gen.Elem.barCopy] at h
+  cases hcp : Gen.Wrap.copy e g.sequence with
+  | error x => rw [hcp] at h; cases h
+  | ok r1 =>
+    rw [hcp] at h
+    simp only [ok_bind] at h
+    cases hi : Gen.Elem.barInit e r1.2 g.num g.den g.key g.defaultChannel with
+    | error x => rw [hi] at h; cases h
+    | ok c =>
+      rw [hi] at h
+      simp only [ok_bind, pure_eq] at h
+      injection h with h
+      subst h
+      obtain ⟨h1, h2, h3, h4, h5, h6, h7⟩ := barInit_shape e r1.2 g.num g.den g.key g.defaultChannel c hi
+      exact ⟨h6, h3, h4, h5, h7, h1, h2⟩
+
+/-- **bar and copy agree on the channel of the leading time signature** (D37 repaired): a bar constructed with
+    `default_channel = c` and any copy of it both start with the time-signature event on channel `chanOf c`, and both
+    remember `c`; the bar itself is not changed by being copied. -/
+theorem barCopy_of_constructed (e : Env) (s : Seq) (n d key c : Int) (g : GBar)
+    (hg : Gen.Elem.barInit e s n d key c = .ok g) (p : GBar × GBar) (h : Gen.Elem.barCopy e g = .ok p) :
+    p.1 = g ∧ p.2.defaultChannel = c ∧ g.defaultChannel = c ∧
+      p.2.sequence.rel.head? = some (Msg.mkTimeSig (chanOf c) n d pyNone) ∧
+      g.sequence.rel.head? = some (Msg.mkTimeSig (chanOf c) n d pyNone) ∧
+      p.2.sequence.rel.head? = g.sequence.rel.head? := by
+  obtain ⟨g1, g2, g3, g4, g5, g6, g7⟩ := barInit_shape e s n d key c g hg
+  obtain ⟨c1, c2, c3, c4, c5, _, _⟩ := barCopy_default_channel e g p h
+  rw [g6, g3, g4] at c5
+  refine ⟨?_, c1.trans g6, g6, c5, g7, c5.trans g7.symm⟩
+  obtain ⟨⟨a, r, sa, sr⟩, n', d', k', c'⟩ := g
+  simp only at g1 g2
+  subst g1 g2
+  simp only [Gen.Elem.barCopy, copy_eq, ok_bind] at h
+  cases hi : Gen.Elem.barInit e (Seq.copy { abs := a, rel := r, absStale := true, relStale := false }) n' d' k' c' with
+  | error x => rw [hi] at h; cases h
+  | ok cc =>
+    rw [hi] at h
+    injection h with h
+    subst h
+    rfl
+
+/-! non-vacuity, on the recorded input of D37 (known_findings.json): `Bar(on 60 (channel 3), wait 24, off 60, 4, 4, None,
+    default_channel=3)` and its copy.  The domain hypotheses of `barInit_eq_ch` hold (PPQN 24 ≥ 0, 0 ≤ 4, 0 < 4); bar and copy are evaluated by the
+    kernel: both `[TS 4/4 on channel 3, on 60, wait 24, off 60, wait 72]`, both remember channel 3.  (Before the repair the
+    copy's first event was `TS 4/4 on channel 0`.) -/
+def exD37 : List Msg := [Msg.mkOn 3 60 64 pyNone, Msg.mkWait 3 24, Msg.mkOff 3 60 pyNone]
+def exD37Bar : GBar :=
+  { sequence := { abs := [], rel := [Msg.mkTimeSig 3 4 4 pyNone, Msg.mkOn 3 60 64 pyNone, Msg.mkWait 3 24, Msg.mkOff 3 60 pyNone, Msg.mkWait 3 72],
+                  absStale := true, relStale := false }, num := 4, den := 4, key := pyNone, defaultChannel := 3 }
+
+example : 0 ≤ genEnv.ppqn ∧ (0 : Int) ≤ 4 ∧ (0 : Int) < 4 := by decide
+
+set_option maxRecDepth 100000 in
+example : Gen.Elem.barInit genEnv (Seq.ofRel exD37) 4 4 pyNone 3 = .ok exD37Bar := by decide +kernel
+
+set_option maxRecDepth 100000 in
+example : Gen.Elem.barCopy genEnv exD37Bar = .ok (exD37Bar, exD37Bar) := by decide +kernel
+
+set_option maxRecDepth 100000 in
+/-- channel 3: the copy's leading event is the 4/4 signature on channel 3, and the copy remembers channel 3 -/
+example : (Gen.Elem.barCopy genEnv exD37Bar).toOption.map (fun p => (p.2.defaultChannel, p.2.sequence.rel.head?)) =
+    some (3, some (Msg.mkTimeSig 3 4 4 pyNone)) := by decide +kernel
+
+/-- the same through the hand model: `Bar.copyCh` on channel 3 of the model's bar -/
+example : Bar.copyCh genEnv.ppqn exD37Bar.toBar (chanOf 3) = .ok exD37Bar.toBar := by decide +kernel
+
+/-- `default_channel=None`: the event is on channel 0 (`Message.__init__`), the bar remembers `None` -/
+example : (Gen.Elem.barInit genEnv (Seq.ofRel exD37) 4 4 pyNone pyNone).toOption.map
+    (fun g => (g.defaultChannel, g.sequence.rel.head?)) = some (pyNone, some (Msg.mkTimeSig 0 4 4 pyNone)) := by decide +kernel
 
 /-- **`Bar.transpose(by)` as translated**: the key (if any) goes through `Key.transpose_key`, the sequence
     through the wrapper's `transpose`; the flag is the sequence's -/
